@@ -3,9 +3,9 @@ import sys
 
 
 def main():
-    from . import t_refs, t_cell
+    from . import t_refs, t_cell, t_mounts
     n = 0
-    for mod in (t_refs, t_cell):
+    for mod in (t_refs, t_cell, t_mounts):
         for name in sorted(dir(mod)):
             if name.startswith('test_'):
                 getattr(mod, name)()
